@@ -6,6 +6,7 @@ import (
 	"os"
 	"sort"
 	"strconv"
+	"strings"
 	"testing"
 
 	"verifharness/internal/tlspair"
@@ -94,4 +95,65 @@ func TestDev(t *testing.T) {
 		t.Logf("fail %4d %s", outcomes[k], k)
 	}
 	t.Logf("distinct nontrivial %d", len(sigs))
+}
+
+// TestDevScripted runs scripted-server cases in-process and prints an overview (development aid).
+func TestDevScripted(t *testing.T) {
+	if os.Getenv("C28_DEV") == "" {
+		t.Skip("development aid")
+	}
+	n := 2 * numScriptCombos
+	if v := os.Getenv("C28_N"); v != "" {
+		n, _ = strconv.Atoi(v)
+	}
+	pki := tlspair.Get()
+	keys := map[string]int{}
+	first := map[string]string{}
+	counts := map[string]int{}
+	outcomes := map[string]int{}
+	for idx := 0; idx < n; idx++ {
+		sc := makeScriptedCase(idx, rand.New(rand.NewPCG(uint64(idx), 7)))
+		obs := runScripted(sc)
+		for i, o := range obs {
+			sp := sc.Spec
+			sp.Script = sc.Desc + " | " + sc.Conns[i].String()
+			res := checkObs(sp, o, pki.Server[sc.Kind].Key)
+			if o.CErr != nil || o.SErr != nil {
+				outcomes[fmt.Sprintf("v%04x suite=%04x %s cerr=%v serr=%v", sc.Vers, sc.Suite, o.Label, o.CErr, o.SErr)]++
+				if os.Getenv("C28_FAILS") != "" {
+					t.Logf("FAILCASE s%d/%s %s", idx, o.Label, sp.Script)
+				}
+			} else {
+				counts["ok"]++
+				if o.DidResume {
+					counts["resumed"]++
+				}
+			}
+			for k, v := range res.K.counts {
+				if !strings.HasPrefix(k, "cmp:") {
+					counts[k] += v
+				}
+			}
+			for _, m := range res.K.mm {
+				keys[m.Key]++
+				if first[m.Key] == "" {
+					first[m.Key] = fmt.Sprintf("s%d/%s %s\n      %s", idx, o.Label, sp.Script, m.Detail)
+				}
+			}
+		}
+	}
+	for k, v := range keys {
+		t.Logf("VIOL %4d %s\n    %s", v, k, first[k])
+	}
+	var ks []string
+	for k := range counts {
+		ks = append(ks, k)
+	}
+	sort.Strings(ks)
+	for _, k := range ks {
+		t.Logf("count %6d %s", counts[k], k)
+	}
+	for k, v := range outcomes {
+		t.Logf("fail %4d %s", v, k)
+	}
 }
